@@ -10,7 +10,7 @@ from ..core import Ctx
 from ..flow import AV
 from ..model import AnalysisError, body_stmts, dotted, kwarg, norm, walk_no_nested
 from .c03 import rule_fast_cache
-from .common import assigned_value, bound_args, enclosing, prog, resolve_local, stores_to
+from .common import assigned_value, bound_args, enclosing, key_function, prog, resolve_local, stores_to
 
 FAST = "Continuum.get_fast_alignment"
 
@@ -158,7 +158,8 @@ def rule_progress(ctx: Ctx):
     if len(gl) == 1:
         srt = resolve_local(g.node, gl[0].iter.args[0] if isinstance(gl[0].iter, ast.Call) and dotted(gl[0].iter.func) == "enumerate" else gl[0].iter)
         kk = kwarg(srt, "key") if isinstance(srt, ast.Call) else None
-        key_ok = isinstance(kk, ast.Lambda) and norm(kk.body) == f"{kk.args.args[0].arg}.bounds[1]"
+        kf = key_function(ctx.model, g, kk)
+        key_ok = kf is not None and norm(kf[1]) == f"{kf[0]}.bounds[1]"
         tests = [norm(i.test) for i in ast.walk(gl[0]) if isinstance(i, ast.If)]
         uv = [norm(x) for x in ast.walk(gl[0].target) if isinstance(x, ast.Name)][-1]
         key_ok = key_ok and any(f"{uv}.bounds[1] > {g.params[1]}" in t for t in tests)
